@@ -7,7 +7,7 @@ use crate::dom::{local, Doc, Elem, GenCfg, Node};
 use crate::model::{infer, MNode};
 use crate::observe::{parse_blocks, Obs};
 use crate::rng::{Fnv, Rng};
-use crate::schema::{admits, canon, cmp_exact, cmp_field_order, cmp_same_content, cmp_struct_order, cmp_struct_set, monotone, Canon};
+use crate::schema::{admits, canon, cmp_exact, cmp_field_order, cmp_named_resolution, cmp_same_content, cmp_struct_order, cmp_struct_set, monotone, Canon};
 use crate::session::{expected_verdict, run_session, trace_hash, Input, RenderOpt, Replica, ReplicaOut, Session, Step, Want, CFG_EXPAND_EMPTY};
 use crate::simreader::{Fault, Plan};
 
@@ -188,6 +188,20 @@ fn gen_session(rng: &mut Rng, no_twins: bool, c06: bool) -> Session {
     let bias = rng.pct(35);
     let mut cfg = GenCfg::draw(rng, bias);
     cfg.no_prefix_twins = no_twins;
+    if !c06 && rng.pct(20) {
+        // plain-word regime: lowercase ASCII words only (struct names are then uniquely decodable, see
+        // schema::cmp_named_resolution); the same few names recur at many positions and depths
+        let pool = ["a", "b", "c", "d", "x", "y", "p", "q", "s", "item", "name", "id", "value", "foo"];
+        let n = rng.range(2, 5);
+        cfg.elem_names.clear();
+        while cfg.elem_names.len() < n {
+            let c = rng.pick(&pool).to_string();
+            if !cfg.elem_names.contains(&c) {
+                cfg.elem_names.push(c);
+            }
+        }
+        cfg.max_depth = cfg.max_depth.max(4);
+    }
     cfg.elem_names.retain(|n| !crate::observe::type_ambiguous(n));
     if cfg.elem_names.is_empty() {
         cfg.elem_names.push("a".into());
@@ -569,6 +583,10 @@ impl Prop for C01 {
         };
         let mut violation: Option<Violation> = None;
         let mut validated = 0u64;
+        fn plain(e: &Elem) -> bool {
+            !e.name.is_empty() && e.name.bytes().all(|b| b.is_ascii_lowercase()) && e.elems().all(plain)
+        }
+        let plain_words = s.docs.iter().all(|d| plain(&d.root)) && s.opts.first().map(|o| !o.by_name && !o.serde_xml_rs).unwrap_or(false);
         'outer: for (ri, (r, o)) in s.replicas.iter().zip(c.outs.iter()).enumerate() {
             let delivered = delivered_after(s, r, o);
             for (si, so) in o.steps.iter().enumerate() {
@@ -586,6 +604,15 @@ impl Prop for C01 {
                         break 'outer;
                     }
                 };
+                if plain_words {
+                    if let Ok(whole) = parse_blocks(&so.renders[0]) {
+                        bump(ctr, "reach.plain_word_regime_name_resolution_checked");
+                        if let Some((class, detail)) = cmp_named_resolution(&whole) {
+                            violation = Some(Violation { class, detail: format!("replica {} ({ri}) after step {si}: {detail}", r.role) });
+                            break 'outer;
+                        }
+                    }
+                }
                 for di in &delivered[si] {
                     validated += 1;
                     if obs.name != s.docs[*di].root.name {
